@@ -262,6 +262,13 @@ def m_ledgers(hist, rec):
             n0, l0 = int(sb["total_native_token"]), int(sb["total_liquid_stake_token"])
             if l0 == 0 and n0 != 0:
                 g.swept += n0
+                if getattr(g, "ownerless_by_history", False):
+                    # a staked total without any LST is "ownerless" only when the admin declared it so (ResumeContract);
+                    # here ordinary operations produced it, and the sweep books as retained fees tokens that were
+                    # already forwarded to the staker: the contract owes fees it never held
+                    report(hist, "C02", "ownerless_sweep", {"variant": var},
+                           "stake swept %d of staked total into total_fees; that total arose from ordinary operations while no LST "
+                           "was outstanding, not from a ResumeContract: the contract now owes %d it never held" % (n0, n0), rec)
             mints = [m for m in msgs if m["k"] == "mint"]
             minted = mints[0]["coin"]["amount"] if mints else 0
             stake_tr = [m for m in msgs if m["k"] == "transfer" and m["coin"]["denom"] == D]
@@ -357,6 +364,8 @@ def m_ledgers(hist, rec):
                 after_reqs = [r for r in (a["contract"]["requests"].get(c["sender"], {}).get("ok") or []) if r["batch_id"] == bid]
                 if after_reqs:
                     report(hist, "C05", "withdraw_once", {"variant": var}, "request survives its withdrawal", rec)
+                    report(hist, "C17", "closed_request_listed", {"variant": var},
+                           "UnstakeRequests(%s) still lists the request of batch %d that a committed Withdraw closed" % (c["sender"], bid), rec)
                 g.paid[bid] = g.paid.get(bid, 0) + pay
                 if g.paid[bid] > int(bt["received_native_unstaked"]):
                     report(hist, "C05", "payouts_bounded", {"variant": var}, "payouts of batch %d exceed what was received" % bid, rec)
@@ -384,10 +393,14 @@ def m_ledgers(hist, rec):
                     or sends[0]["coins"] != [{"denom": D, "amount": amt}] or int(sa["total_fees"]) != int(sb["total_fees"]) - amt):
                 report(hist, "C11", "fee_withdraw", {"variant": var}, "fee withdrawal not bounded / not to the treasury", rec)
         elif var == "resume_contract":
+            g.ownerless_by_history = False
             r = c["msg"]["resume_contract"]
             supply = int(a["ledger"]["supply"].get(lst, "0"))
             g.rebase_l = int(r["total_liquid_stake_token"]) - supply
             g.rebase_n = int(r["total_native_token"]) + g.set_aside + g.swept - g.fwd
+        if (var != "resume_contract" and sa is not None and int(sa["total_liquid_stake_token"]) == 0
+                and int(sa["total_native_token"]) != 0 and sa["total_native_token"] != sb["total_native_token"]):
+            g.ownerless_by_history = True
         # self-sends are booked as donations (treasury / mint_to may be the contract itself)
         for m in msgs:
             if m["k"] in ("send", "bank_send") and m["to"] == su.contract:
@@ -805,6 +818,18 @@ def m_recover(hist, rec):
                 or any(p["status"] == "sent" for p in elig)):
             report(hist, "C07", "recover_spec", {"branch": "unforced"},
                    "recovery re-sent %d %s to %s; refundable packets sum to %d" % (t["coin"]["amount"], t["coin"]["denom"], t["receiver"], want), rec)
+    else:
+        # forced: the selected packets (each once) all belong to the receiver the amount is re-sent to, in one denom
+        by = {p["sequence"]: p for p in before}
+        picked = [by[x] for x in sorted(set(m["selected_packets"])) if x in by]
+        if picked:
+            want = sum(int(p["amount"]["amount"]) for p in picked)
+            rcvs = {p["receiver"] for p in picked}
+            denoms = {p["amount"]["denom"] for p in picked}
+            if rcvs != {t["receiver"]} or denoms != {t["coin"]["denom"]} or t["coin"]["amount"] != want:
+                report(hist, "C07", "recover_spec", {"branch": "forced"},
+                       "forced recovery of packets of %s (%d %s) re-sent %d %s to %s" % (
+                           sorted(rcvs), want, sorted(denoms), t["coin"]["amount"], t["coin"]["denom"], t["receiver"]), rec)
     sa, sb = state(a), state(b)
     if sa is not None and sb is not None and (sa["total_native_token"], sa["total_liquid_stake_token"], sa["total_fees"]) != (
             sb["total_native_token"], sb["total_liquid_stake_token"], sb["total_fees"]):
@@ -907,6 +932,11 @@ def m_config(hist, rec):
             if m.get(k) is None:
                 continue
             want, got = norm(m[k]), norm(ca[ck])
+            if isinstance(want, dict):
+                # bech32 allows an all-upper-case spelling; the contract stores the prefix it validated, in lower case
+                for pk in ("account_address_prefix", "validator_address_prefix"):
+                    if isinstance(want.get(pk), str) and want[pk].isupper():
+                        want[pk] = want[pk].lower()
             if isinstance(want, dict) and isinstance(got, dict):
                 bad = [kk for kk in want if kk in got and want[kk] != got[kk]]
             else:
